@@ -35,11 +35,11 @@ META = dict(
                  "kinds built from positive real ingredients a refusal is a violation",
                  "CG-based draws (SamplingEnabler) use GradientNormController(tol_rel 1e-10) and are compared "
                  "to 1e-7; everything else to 1e-9 (norm-wise)",
-                 "Monte-Carlo smoke run (unscripted RNG, 7 sigma on per-pixel variances) only confirms that "
-                 "scripting does not change the draw path"],
+                 "Monte-Carlo smoke run (unscripted RNG, 300 draws, exact chi-square acceptance region with "
+                 "p = 2e-13 per pixel variance) only confirms that scripting does not change the draw path"],
     need=["covariance_comparisons", "zero_mean_checks", "linearity_checks", "refusals_expected",
           "inverse_draws_compared", "complex_draws_compared", "cg_draws_compared", "mc_smoke_checks"],
-    quick=dict(cases=2000, workers=4, budget_s=70),
+    quick=dict(cases=1200, workers=6, budget_s=80),
     thorough=dict(cases=60000, workers=16, budget_s=600),
     design_ref="DESIGN.md §5 C13",
     level_text=("generated covariance-operator trees; exact covariance of the real draw_sample code via "
@@ -57,6 +57,8 @@ def init(ck):
     ck.state["DenseOp"] = cs.dense_op_class()
     ck.state["DenseLin"] = cs.dense_lin_class()
     ck.state["sn"] = cs.ScriptedNormal()
+    from scipy.stats import chi2
+    ck.state["chi2_bounds"] = (float(chi2.ppf(1e-13, 300)), float(chi2.isf(1e-13, 300)))
     import logging
     try:
         ift.logger.setLevel(logging.CRITICAL)
@@ -263,7 +265,15 @@ def gen_sandwich(ck, ift, rng, dom=None, dt=None, good=False):
         ch = Cov(None, np.eye(tgt.size), np.full(tgt.size, sdt[1] == "c"), sdt[0] is not None,
                  {False: sdt[0] is not None, True: sdt[0] is not None}, dict(t="none", dt=sdt[1]))
     else:
-        ch = leaf(ift, rng, tgt, dt=dt if (good or rng.integers(0, 5)) else None, good=good)
+        # a complex bun needs a complex sampling dtype (or none at all -> must refuse); with a real bun
+        # the cheese may carry any dtype
+        if good or rng.integers(0, 5):
+            cdt = dt
+        elif cplx:
+            cdt = (None, "none")
+        else:
+            cdt = None
+        ch = leaf(ift, rng, tgt, dt=cdt, good=good)
         op = ift.SandwichOperator.make(bun, ch.op)
     Mc = B.conj().T @ ch.Mc @ B
     cpx = np.full(dom.size, bool(ch.cpx.any()))
@@ -571,10 +581,12 @@ def case(ck, i):
         var = acc / K
         dv = np.diagonal(C)
         ck.hit("mc_smoke_checks", len(dv))
-        bad = np.abs(var - dv) > 7.0 * dv * np.sqrt(2.0 / K) + 1e-300
+        # K*var/sigma^2 ~ chi^2_K exactly (zero-mean Gaussian): two-sided bound at 1e-13 per comparison
+        lo, hi = ck.state["chi2_bounds"]
+        bad = (K * var < lo * dv - 1e-300) | (K * var > hi * dv + 1e-300)
         if np.any(bad):
-            ck.violation(f"mc-smoke:{mech}", "sample variances of unscripted draws are off by more than 7 sigma "
-                         "from the scripted covariance", observed=var[bad][:4].tolist(),
-                         expected=dv[bad][:4].tolist())
+            ck.violation(f"mc-smoke:{mech}", "sample variances of unscripted draws are outside the exact "
+                         "chi-square acceptance region (p < 2e-13) around the scripted covariance",
+                         observed=var[bad][:4].tolist(), expected=dv[bad][:4].tolist())
     offdiag = np.max(np.abs(Cexp - np.diag(np.diagonal(Cexp))), initial=0.0) > 1e-12 * sc
     ck.note(desc, nontrivial=bool(offdiag or from_inverse or c.cpx.any()), klass=kl)
